@@ -254,7 +254,6 @@ func culprit(c *runner.Ctx, x work.Encodable, sw bool) string {
 
 func roundTrip(c *runner.Ctx, in work.Input, path, encoder string, x []byte, d *work.Dec) {
 	c.Evals(1)
-	lv := level(path)
 	det := func(out []byte) detail {
 		dd := detail{Path: path, Encoder: encoder, Seed: in.Name, Mut: in.Desc, Input: base64.StdEncoding.EncodeToString(in.Data)}
 		if out != nil && len(out) <= 64<<10 {
@@ -273,7 +272,7 @@ func roundTrip(c *runner.Ctx, in work.Input, path, encoder string, x []byte, d *
 	}
 	if e.Err != nil {
 		t := culprit(c, d.Obj(), encoder == "EncodeSW")
-		c.Violation(fmt.Sprintf("reencode-fails/%s/%s/%s", lv, t, errClass(e.Err)),
+		c.Violation(fmt.Sprintf("reencode-fails/%s/%s", t, errClass(e.Err)),
 			fmt.Sprintf("%s accepted the input but %s of the decoded structure fails: %v (innermost failing node: %s)\nseed %s, mutation: %s", path, encoder, e.Err, t, in.Name, in.Desc), det(nil))
 		return
 	}
@@ -329,23 +328,29 @@ func roundTrip(c *runner.Ctx, in work.Input, path, encoder string, x []byte, d *
 			c.Count("decode_panics_left_to_C04", 1)
 			return
 		}
-		c.Violation(fmt.Sprintf("redecode-fails/%s/%s/%s", lv, normsUsed(s), errClass(dy.Err)),
+		c.Violation(fmt.Sprintf("redecode-fails/%s/%s", normsUsed(s), errClass(dy.Err)),
 			fmt.Sprintf("%s accepted x, %s gave y (differences all in the don't-care list: %s), but %s rejects y: %v\nseed %s, mutation: %s", path, encoder, explainedStr(s), path, dy.Err, in.Name, in.Desc), det(y))
 		return
 	}
 	opt := treecmp.Options{}
 	if s.sizeChanged || s.reordered {
 		opt.Ignore = treecmp.Positions()
+		// senc keeps the bytes it was read from (rawData, internal intermediate
+		// storage) also after parsing: they differ by the dropped surplus only
+		// (the payload itself was compared byte for byte above)
+		if s.explained["N3"] > 0 {
+			opt.Ignore["rawData"] = true
+		}
 	}
 	if diffs := treecmp.Diff(d0.Obj(), dy.Obj(), opt); len(diffs) > 0 {
-		c.Violation(fmt.Sprintf("redecode-differs/%s/%s", lv, treecmp.FirstPath(diffs)),
+		c.Violation(fmt.Sprintf("redecode-differs/%s", treecmp.KeyPath(diffs)),
 			fmt.Sprintf("%s + %s: P(y) is not structurally equal to P(x) (y differs from x only in listed positions: %s): %s\nseed %s, mutation: %s", path, encoder, explainedStr(s), strings.Join(diffs, "; "), in.Name, in.Desc), det(y))
 		return
 	}
 	e2 := encode(c, encoder, dy)
 	if !e2.OK() {
 		if e2.Err != nil {
-			c.Violation(fmt.Sprintf("reencode-fails/%s/second/%s", lv, errClass(e2.Err)),
+			c.Violation(fmt.Sprintf("reencode-fails/second/%s", errClass(e2.Err)),
 				fmt.Sprintf("%s + %s: second encode fails: %v\nseed %s, mutation: %s", path, encoder, e2.Err, in.Name, in.Desc), det(y))
 		}
 		return
@@ -359,7 +364,7 @@ func roundTrip(c *runner.Ctx, in work.Input, path, encoder string, x []byte, d *
 		if n := boxwalk.InnermostAt(ny, first); n != nil {
 			t = n.Type
 		}
-		c.Violation(fmt.Sprintf("not-a-fixed-point/%s/%s", lv, t),
+		c.Violation(fmt.Sprintf("not-a-fixed-point/%s", t),
 			fmt.Sprintf("%s + %s: E(P(y)) differs from y at byte %d (in %s; lengths %d and %d)\nseed %s, mutation: %s", path, encoder, first, t, len(y), len(e2.Bytes), in.Name, in.Desc), det(y))
 		return
 	}
